@@ -255,17 +255,21 @@ def run(tier, seed):
             with open("long.sph", "wb") as f:
                 f.write(blob)
             for src in ("path", "stream"):
+              for dtype in (None, np.int8, np.float32, np.int64):  # a given dtype is a final cast, narrower ones too
                 run.evaluations += 1
+                kwd = {} if dtype is None else {"dtype": dtype}
                 try:
                     with warnings.catch_warnings():
                         warnings.simplefilter("ignore")
-                        got = util.read_signal("long.sph") if src == "path" else util.read_signal(io.BytesIO(blob), force_as="sph")
+                        got = util.read_signal("long.sph", **kwd) if src == "path" else util.read_signal(io.BytesIO(blob), force_as="sph", **kwd)
                 except Exception as e:
                     run.violation({"kind": "read_signal_raised", "reader": "sph", "shape": list(shape), "src": src, "byte_order": order,
+                                   "dtype_arg": None if dtype is None else str(np.dtype(dtype)),
                                    "what": "marker bytes as samples at a read boundary", "error": repr(e)})
                     continue
-                if not same(got, x):
+                if not same(got, x if dtype is None else x.astype(dtype)):
                     run.violation({"kind": "read_back_differs_from_stored", "reader": "sph", "shape": list(shape), "src": src, "byte_order": order,
+                                   "dtype_arg": None if dtype is None else str(np.dtype(dtype)),
                                    "what": "marker bytes as samples at a read boundary"})
             files_for_wds.append(("long.sph", blob, x, None))
         # the table has no memory: after all the calls above (including every refused one) the
